@@ -50,6 +50,17 @@ pub fn gen_case(rng: &mut Rng, for_c09: bool) -> Option<Case> {
     so.interface_chains = true;
     so.descriptions = false;
     let (mut schema, _) = gen_valid_schema(rng, &so);
+    // name clash: an input object, enum, object or union named like an identifier that scalar mappings use (Date, Record)
+    if rng.chance(1, 5) {
+        let ix0 = SchemaIx::new(&schema);
+        let victims: Vec<String> = ix0.order.iter().filter(|t| matches!(ix0.kind(t), Some(TKind::Input | TKind::Enum | TKind::Object | TKind::Union)) && !matches!(t.as_str(), "Query" | "Mutation" | "Subscription" | "RootQ" | "RootM" | "RootS")).cloned().collect();
+        if let Some(v) = rng.pick_opt(&victims) {
+            let new = "Date";
+            if ix0.kind(new).is_none() {
+                crate::props::c10::rename_type(&mut schema, v, new);
+            }
+        }
+    }
     let ix = SchemaIx::new(&schema);
     let mut oo = OpOpts::standard();
     oo.max_depth = if for_c09 { 2 } else { 3 };
